@@ -75,5 +75,13 @@ func prefixSets() []Set {
 		out = append(out, Set{"prefix", fmt.Sprintf("prefix-variant-%d b:a=%s c:a=%s c:b=%s", v, px[0], px[1], px[2]),
 			[]dump.File{{Name: "a.yang", Text: a}, {Name: "b.yang", Text: b}, {Name: "c.yang", Text: c}}})
 	}
+	// augments whose target path runs through the implied case of a shorthand choice member, with
+	// a choice in their body; deviations of rpc input/output
+	out = append(out,
+		Set{"late", "augment-through-implied-case", []dump.File{{Name: "m.yang", Text: `module m { namespace "urn:m"; prefix m; container top { choice ch { container x { leaf l { type string; } } leaf s { type string; } } } augment /m:top/m:ch/m:x/m:x { choice inner { leaf il { type string; } container ic { choice deeper { leaf dl { type string; } } } } } }`}}},
+		Set{"late", "augment-through-implied-case-two-modules", []dump.File{{Name: "m.yang", Text: `module m { namespace "urn:m"; prefix m; container top { choice ch { container x { leaf l { type string; } } } } }`},
+			{Name: "n.yang", Text: `module n { namespace "urn:n"; prefix n; import m { prefix m; } augment /m:top/m:ch/m:x/m:x { choice inner { leaf il { type string; } } } augment /m:top/m:ch { leaf late { type string; } } }`}}},
+		Set{"late", "not-supported-rpc-io", []dump.File{{Name: "m.yang", Text: `module m { namespace "urn:m"; prefix m; rpc r { input { leaf i { type string; } } output { leaf o { type string; } } } container c { action act { input { leaf ai { type string; } } } } deviation /m:r/m:input { deviate not-supported; } deviation /m:c/m:act/m:input { deviate not-supported; } }`}}},
+	)
 	return out
 }
